@@ -81,6 +81,9 @@ func (P) Gen(rng *sim.Rng, tier string) *harness.Case {
 		r := rs.RS{M: m, Res: rng.Intn(nRes), Idx: i, Tw: rng.Intn(3)}
 		if rng.Chance(0.5) {
 			r.Hid = rng.Intn(rs.NumHidden[m]) // every field of the wire format takes part in some rule
+			if m == rs.Hotspot && r.Hid >= 9 {
+				r.Hid = 0 // (the tables of specific values on the wire are this check's own, see expectSpecific)
+			}
 		}
 		switch rng.Intn(10) {
 		case 0, 1, 2, 3, 4:
